@@ -497,6 +497,106 @@ def judge_patch(base, diff, py, ts):
         det['documented_semantics'] = 'n/a: %r' % e
     return 'ts-patch-differs', det
 
+# ---- disagreements whose root cause is a dict key named "__proto__"
+RENAMED = '__prot0__'
+def has_proto_key(v): return PROTO in strings_of(list(v) if isinstance(v, tuple) else v)
+
+def rename_proto(v):
+    """the same case with every occurrence of the name (dict keys, 'key' fields of diff entries, common_path elements)
+    replaced by a name JavaScript gives no meaning to"""
+    if isinstance(v, str): return RENAMED if v == PROTO else v
+    if isinstance(v, list): return [rename_proto(x) for x in v]
+    if isinstance(v, dict): return {rename_proto(k): rename_proto(x) for k, x in v.items()}
+    return v
+
+def _entry_keys(diff, out=None):
+    """key names that ARRIVE with a diff: the 'key' of object entries and every dict key inside added values"""
+    if out is None: out = set()
+    for e in diff or []:
+        if not isinstance(e, dict): continue
+        if isinstance(e.get('key'), str): out.add(e['key'])
+        for f in ('value', 'valuelist'):
+            if f in e: out.update(x for x in strings_of(e[f]))
+        if e.get('op') == 'patch': _entry_keys(e.get('diff'), out)
+    return out
+
+def _proto_container_value(v):
+    """some dict of v has the key with a dict / list value (assignment then really REPLACES the prototype, whose
+    enumerable members every later for-in copy turns into own keys)"""
+    if isinstance(v, dict):
+        return any((k == PROTO and isinstance(x, (dict, list))) or _proto_container_value(x) for k, x in v.items())
+    if isinstance(v, list): return any(_proto_container_value(x) for x in v)
+    return False
+
+def proto_signature(kind, base, diffs, ts, paths=()):
+    """refined signature of a disagreement that is known (by proto_root_cause) to vanish when the key is renamed, i.e.
+    the name is the cause; the signature says how it shows.  None = not one of the understood forms, the usual
+    signature is used.  kind: 'patch' (generic.ts:patch) | 'apply' (decisions.ts:applyDecisions, which copies the base
+    with common/util.ts:deepCopy first); paths: the common_paths of the decisions"""
+    pre = 'proto-key:' if kind == 'patch' else 'proto-key:apply-'
+    if 'err' in ts:
+        import re
+        if re.match(r'Invalid (remove|replace|patch) key diff op: Missing key: __proto__$', ts.get('msg', '')):
+            return pre + 'op-on-present-key-throws'
+    elif 'ok' not in ts: return None
+    if any(PROTO in (p or ()) for p in paths): return pre + 'path-through-key'             # a decision about something UNDER the key
+    if 'err' in ts:
+        if _proto_container_value(base): return pre + 'own-key-members-leak-throws'
+        return None
+    if any(PROTO in _entry_keys(d) for d in diffs): return pre + 'add-lost'          # the key arrives with the diff and is not kept
+    if PROTO in strings_of(base): return pre + 'own-key-dropped'                        # the key is in base and is not copied
+    return None
+
+def _decision_diffs(decisions):
+    return [d.get(k) for d in decisions for k in ('local_diff', 'remote_diff', 'custom_diff') if d.get(k)]
+
+def proto_root_cause(kind, cases, env):
+    """for each case ({'base','diff'} or {'base','decisions'}): True iff the name occurs in it AND the two
+    implementations agree on the same case with the name replaced (so nothing but the name is the cause)"""
+    idx = [i for i, c in enumerate(cases) if has_proto_key([c['base'], c.get('diff'), c.get('decisions')])]
+    if not idx: return [False] * len(cases)
+    if kind == 'patch': t = [{'op': 'patch', 'base': rename_proto(cases[i]['base']), 'diff': rename_proto(cases[i]['diff'])} for i in idx]
+    else: t = [{'op': 'apply', 'base': rename_proto(cases[i]['base']), 'decisions': rename_proto(cases[i]['decisions'])} for i in idx]
+    pyr = core.run_impl(t, shards=14, script='c15_pyrun.py', env_extra=env)
+    tsr = c15_node.run_node(t)
+    out = [False] * len(cases)
+    for i, py, ts in zip(idx, pyr, tsr): out[i] = same(py, ts)
+    return out
+
+def report_proto_key(chk, kind, cases, failing, env):
+    """failing: indices into cases (each with 'py' and 'ts').  Reports those explained by the key "__proto__" under
+    their refined signatures (smallest case of each signature, counted) and returns the set of indices so explained;
+    everything else goes on to the ordinary reduction and keeps its ordinary signature."""
+    sub = [cases[i] for i in failing]
+    rc = proto_root_cause(kind, sub, env) if sub else []
+    by_sig = {}; done = set()
+    for i, c, ok in zip(failing, sub, rc):
+        if not ok: continue
+        diffs = [c['diff']] if kind == 'patch' else _decision_diffs(c['decisions'])
+        sig = proto_signature(kind, c['base'], diffs, c['ts'], [d.get('common_path') for d in c.get('decisions', [])])
+        if sig is None: continue
+        done.add(i)
+        size = len(canon([c['base'], c.get('diff'), c.get('decisions')]))
+        cur = by_sig.get(sig)
+        if cur is None: by_sig[sig] = [size, i, 1]
+        else:
+            cur[2] += 1
+            if size < cur[0]: cur[0], cur[1] = size, i
+    for sig, (size, i, cnt) in sorted(by_sig.items()):
+        c = cases[i]
+        case = {'kind': 'patch', 'base': c['base'], 'diff': c['diff']} if kind == 'patch' else {'kind': 'apply', 'base': c['base'], 'decisions': c['decisions']}
+        py = c['py']; ts = c['ts']
+        det = {'python': py.get('ok', py.get('err')) if kind == 'patch' else py.get('err', '<merged notebook>'),
+               'ts': ts.get('ok', {'threw': ts.get('err'), 'msg': ts.get('msg')}) if kind == 'patch' else ts.get('err', '<different document>'),
+               'ts_msg': ts.get('msg'), 'found_in': c['src'], 'cases_with_this_signature': cnt,
+               'root_cause_test': 'the implementations agree on the same case with the key renamed to ' + RENAMED}
+        if kind == 'apply' and 'ok' in py and 'ok' in ts:
+            tgt = differing_strings(py.get('ok'), ts.get('ok'))
+            if tgt: det['first_difference'] = tgt
+        for _ in range(cnt):
+            if chk.violation(sig, case, det): break
+    return done
+
 def run(tier, seed):
     chk = core.Check(PROP, tier, seed)
     # Gen/*.v and the model files the correspondence needs are (re)built under ONE hold of the build lock, so that a
@@ -560,6 +660,8 @@ def run(tier, seed):
             for i, c in enumerate(pcases):
                 sig, det = judge_patch(c['base'], c['diff'], c['py'], c['ts'])
                 if sig: failing.append((i, sig, det))
+            explained = report_proto_key(chk, 'patch', pcases, [i for i, _, _ in failing], env)
+            failing = [f for f in failing if f[0] not in explained]
             report_patch_failures(chk, pcases, failing, env)
             # ---- T2 on decisions
             mfail = []
@@ -567,6 +669,8 @@ def run(tier, seed):
                 if same(c['py'], c['ts']): continue
                 if 'err' in c['py'] and 'err' in c['ts']: continue
                 mfail.append(i)
+            explained = report_proto_key(chk, 'apply', mcases, mfail, env)
+            mfail = [i for i in mfail if i not in explained]
             report_merge_failures(chk, mcases, mfail, env)
             # ---- T2 on the vocabulary: every action Python was seen to emit must be accepted
             for a in sorted(x for x in emitted_seen if isinstance(x, str)):
@@ -620,7 +724,7 @@ def run(tier, seed):
     chk.cov.update({
         'evaluations': len(pcases) + len(mcases) + len(splits),
         'distinct_nontrivial': len(nontriv),
-        'rule': 'each (base, diff) from nbdime.diff / diff_notebooks and each (base, decisions) from decide_notebook_merge(mergetool) over the generated space is one program run through Python and TypeScript; strings over {a,b,LF,CR}+each of VT,FF,FS,GS,RS,NEL,LS,PS, multi-line text, astral text, JSON documents, notebooks, notebook triples incl. nbformat_minor conflicts, in-line edit on one side vs whole-line changes on the other in one source (inline-vs-lines), dict keys named like members of Object.prototype / other JavaScript-significant names (constructor, toString, valueOf, hasOwnProperty, length, 0, op, ...) added / removed / replaced / patched / kept in JSON objects (jskeys-json), in notebook, cell and output metadata (jskeys-nb) and on one or both sides of a merge (jskeys-triple), __proto__ excluded; non-trivial = non-empty diff / non-empty decision list, distinct by canonical JSON of the pair; split strings are counted in evaluations only',
+        'rule': 'each (base, diff) from nbdime.diff / diff_notebooks and each (base, decisions) from decide_notebook_merge(mergetool) over the generated space is one program run through Python and TypeScript; strings over {a,b,LF,CR}+each of VT,FF,FS,GS,RS,NEL,LS,PS, multi-line text, astral text, JSON documents, notebooks, notebook triples incl. nbformat_minor conflicts, in-line edit on one side vs whole-line changes on the other in one source (inline-vs-lines), dict keys named like members of Object.prototype / other JavaScript-significant names (constructor, toString, valueOf, hasOwnProperty, length, 0, op, ...) added / removed / replaced / patched / kept in JSON objects (jskeys-json), in notebook, cell and output metadata (jskeys-nb) and on one or both sides of a merge (jskeys-triple); about a third of the jskeys cases are about the key __proto__ (added, removed, replaced, patched, present and untouched while another key changes, nested): these are compared implementation against implementation and, having no counterpart in the prototype-free Gallina model of the TypeScript patcher, are left out of the ts_patch model comparison (select_t1 / wf_for_ts_model); a disagreement is attributed to that key (signatures proto-key:*) only if the key occurs in the case AND both implementations agree on the same case with the key renamed; non-trivial = non-empty diff / non-empty decision list, distinct by canonical JSON of the pair; split strings are counted in evaluations only',
         'input_distribution': hist,
         'traces_validated_against_impl': t1, 'model_impl_mismatches': mism,
         'ts_executed': not static_only, 'node': node or 'absent',
@@ -666,6 +770,7 @@ def wf_for_ts_model(c):
     except text with astral code points: the model reads strings as code-unit lists and the theorem is about BMP text;
     astral text is covered by the differential run and by the ts_patch_astral_refuted witness"""
     if c.get('ts') is None or c['ts'].get('err') == 'HarnessCrash': return False
+    if has_proto_key([c['base'], c['diff']]): return False      # the model has no prototype chain (see ASSUME); compared differentially only
     return not has_astral([c['base'], c['diff']])
 
 def select_t1(pcases, tier):
@@ -768,6 +873,10 @@ def report_merge_failures(chk, mcases, mfail, env):
         if same(py, ts) or ('err' in py and 'err' in ts): continue
         explained.add(i)
         single.append((i, j, d, py, ts))
+    # single decisions whose disagreement is caused by a key named "__proto__" get the refined signatures
+    sc = [{'src': mcases[i]['src'] + ' (decision %d)' % j, 'base': mcases[i]['base'], 'decisions': [d], 'py': py, 'ts': ts} for i, j, d, py, ts in single]
+    pk = report_proto_key(chk, 'apply', sc, list(range(len(sc))), env)
+    single = [x for n, x in enumerate(single) if n not in pk]
     # second reduction: the string-level (base, diff) pairs the failing decision applies
     lv = []
     for n, (i, j, d, py, ts) in enumerate(single):
@@ -884,12 +993,16 @@ def replay(path):
             sig = None
             if not (same(py, ts) or ('err' in py and 'err' in ts)):
                 sig = decision_signature(case['base'], case['decisions'][0], py, ts) if len(case['decisions']) == 1 else 'ts-apply-differs:only-in-combination'
+                if proto_root_cause('apply', [case], env)[0]:
+                    sig = proto_signature('apply', case['base'], _decision_diffs(case['decisions']), ts, [d.get('common_path') for d in case['decisions']]) or sig
             print(json.dumps({'signature': sig, 'python': py.get('err', 'ok'), 'ts': ts.get('err', 'ok'), 'ts_msg': ts.get('msg')}, indent=1)[:3000])
         else:
             t = [{'op': 'patch', 'base': case['base'], 'diff': case['diff']}]
             py = core.run_impl(t, script='c15_pyrun.py', env_extra=env)[0]; ts = c15_node.run_node(t)[0]
             sig, det = judge_patch(case['base'], case['diff'], py, ts)
             if sig and isinstance(case['base'], str): sig = classify_string(case['base'], case['diff'], py, ts)
+            if sig and proto_root_cause('patch', [case], env)[0]:
+                sig = proto_signature('patch', case['base'], [case['diff']], ts) or sig
             print(json.dumps({'signature': sig, 'python': py.get('ok', py.get('err')), 'ts': ts.get('ok', ts.get('err'))}, indent=1, default=str)[:3000])
     finally:
         cleanup_env(env)
